@@ -147,16 +147,35 @@ def V(out, impl, kind, trigger, text, hist):
                                 {'impl': impl, 'history': list(hist)}, weight=(len(hist), 0)))
 
 
-def api_probe(w, impl, ids, what, out, hist):
-    """ids that must be inert."""
+API_NAMES = ['send', 'get_session', 'save_session', 'session_ctx', 'transport']
+
+
+def api_probe(w, impl, ids, what, out, hist, first=None):
+    """ids that must be inert. `first` names the API call that touches each id first (the first touch of a
+    closed-but-unreaped entry is the one that matters: it reaps the entry for the calls that follow)."""
     for sid in ids:
         before = snapshot(w)
+        calls = [('get_session', (sid,)), ('save_session', (sid, {'x': 1})), ('session_ctx', (sid,)), ('transport', (sid,))]
+        if first and first != 'send':
+            calls.sort(key=lambda c: c[0] != first)
+            lead = calls.pop(0)
+        else:
+            lead = None
+        if lead:
+            c = w.call(lead[0], *lead[1])
+            w.run()
+            if not c.done:
+                V(out, impl, 'api_blocked', what, '%s(%s id) did not return' % (lead[0], what), hist)
+            elif c.exc is None:
+                V(out, impl, 'dead_id_addressable', what, '%s(%s id) as the first touch returned %r instead of raising KeyError'
+                  % (lead[0], what, c.result), hist)
+            elif c.exc['type'] != 'KeyError':
+                V(out, impl, 'dead_id_wrong_error', what, '%s(%s id) raised %s' % (lead[0], what, c.exc['type']), hist)
         c = w.call('send', sid, 'to-the-dead')
         w.run()
         if not c.done or c.exc:
             V(out, impl, 'send_dead_id_not_silent', what, 'send(%s id) done=%s exc=%r' % (what, c.done, c.exc), hist)
-        for name, args in (('get_session', (sid,)), ('save_session', (sid, {'x': 1})), ('session_ctx', (sid,)),
-                           ('transport', (sid,))):
+        for name, args in calls:
             c = w.call(name, *args)
             w.run()
             if not c.done:
@@ -169,7 +188,7 @@ def api_probe(w, impl, ids, what, out, hist):
             V(out, impl, 'dead_id_touched_other_session', what, 'API calls with a %s id changed live sessions or fired events' % what, hist)
 
 
-def run_history(impl, hist, out):
+def run_history(impl, hist, out, first=None):
     ping_state = bool(hist) and hist[0] == '@ping'
     iv = INTERVAL2 if ping_state else INTERVAL
     w = peer.make_world(impl, server_kwargs=dict(ping_interval=iv, ping_timeout=TIMEOUT, monitor_clients=True),
@@ -202,7 +221,7 @@ def run_history(impl, hist, out):
         # --- inert ids
         api_probe(w, impl, ['neverissued0000000000'], 'never-issued', out, hist)
         api_probe(w, impl, rejected, 'rejected', out, hist)
-        api_probe(w, impl, [s.sid for s in ss if s.ended], 'disconnected', out, hist)
+        api_probe(w, impl, [s.sid for s in ss if s.ended], 'disconnected', out, hist, first)
         # --- two full sweeps: the table holds exactly the live sessions
         t0 = w.now
         w.run_until(t0 + 2 * TIMEOUT + 0.5)
@@ -239,6 +258,11 @@ def _work(chunk):
         try:
             if run_history(impl, hist, out):
                 n += 1
+                if hist and hist[-1] in ('close_post', 'bad_post', 'disconnect_api', 'ws_close') and len(hist) <= 3:
+                    # the session just ended and its entry may still sit in the table: let every API be the first to touch it
+                    for first in API_NAMES[1:]:
+                        run_history(impl, hist, out, first)
+                        n += 1
         except report.Livelock as e:
             out.append(report.livelock_violation(impl, e, {'impl': impl, 'history': list(hist)}))
     return [v.to_json() for v in out[:300]], n, len(out), sorted(_DIGESTS), _STEPS[0]
